@@ -745,11 +745,12 @@ def unpack_dataclass(spec: ValueSpec) -> Optional[Expression]:
             spec.builder.ensure_object_imported(spec.origin_type, cls_alias)
             return f"{cls_alias}.{method_name}({method_args})"
         else:
+            method = getattr(spec.attrs, method_name, None)
+            if method is None:
+                # self reference: the method is being built right now
+                return f"{spec.cls_attrs_name}.{method_name}({method_args})"
             method_name_alias = f"{cls_alias}_{method_name}"
-            spec.builder.ensure_object_imported(
-                getattr(spec.attrs, method_name),
-                method_name_alias,
-            )
+            spec.builder.ensure_object_imported(method, method_name_alias)
             return f"{method_name_alias}({method_args})"
 
 
